@@ -891,14 +891,26 @@ func (vc *VC) callAsserts(fr *Frame, st *State, c *ssa.CallCommon, args []Term, 
 	if fr.con == nil || len(fr.con.CallAsserts) == 0 {
 		return
 	}
-	var name string
+	var name, qname string
 	var params []*types.Var
 	var recv *types.Var
 	if c.IsInvoke() {
 		name = c.Method.Name()
+		if nt, ok := c.Value.Type().(*types.Named); ok {
+			qname = nt.Obj().Name() + "." + name // interface-qualified: LBSubsetEntry.HostNum
+		}
 	} else if f := c.StaticCallee(); f != nil {
 		name = f.Name()
 		recv = f.Signature.Recv()
+		if recv != nil {
+			rt := recv.Type()
+			if p, ok := rt.(*types.Pointer); ok {
+				rt = p.Elem()
+			}
+			if nt, ok := rt.(*types.Named); ok {
+				qname = nt.Obj().Name() + "." + name
+			}
+		}
 	} else if prm, ok := c.Value.(*ssa.Parameter); ok {
 		// a call through a function-typed parameter is addressed by the parameter's name
 		name = prm.Name()
@@ -910,7 +922,7 @@ func (vc *VC) callAsserts(fr *Frame, st *State, c *ssa.CallCommon, args []Term, 
 		params = append(params, sig.Params().At(i))
 	}
 	for _, ca := range fr.con.CallAsserts {
-		if ca.Callee != name {
+		if ca.Callee != name && (qname == "" || ca.Callee != qname) {
 			continue
 		}
 		env := vc.newEnv(fr, st, fr.entry)
@@ -919,6 +931,9 @@ func (vc *VC) callAsserts(fr *Frame, st *State, c *ssa.CallCommon, args []Term, 
 		if recv != nil && !c.IsInvoke() {
 			env.names["recv"] = Bound{args[0], recv.Type()}
 			off = 1
+		}
+		if c.IsInvoke() {
+			env.names["recv"] = Bound{vc.val(fr, c.Value), c.Value.Type()}
 		}
 		for i, p := range params {
 			if i+off >= len(args) {
